@@ -10,10 +10,10 @@ import (
 )
 
 // VerifyFunc generates the obligations of one function under contract.
-func (e *Engine) VerifyFunc(key string) *FnCtx {
+func (e *Engine) VerifyFunc(key string) (ctx *FnCtx) {
 	ct := e.Specs.Contracts[key]
 	fn := e.Funcs[key]
-	ctx := &FnCtx{E: e, Fn: fn, C: ct, Key: key, decls: map[string]string{}, Notes: map[string]bool{},
+	ctx = &FnCtx{E: e, Fn: fn, C: ct, Key: key, decls: map[string]string{}, Notes: map[string]bool{},
 		strLits: map[string]Term{}, maxPaths: 4000, Callees: map[string]bool{}, implAx: map[string]bool{}}
 	if ct == nil {
 		ctx.Errs = append(ctx.Errs, "no contract for "+key)
@@ -41,7 +41,7 @@ func (e *Engine) VerifyFunc(key string) *FnCtx {
 			}
 		}
 	}()
-	st := &State{pcSet: map[string]bool{}, heap: map[string]Term{}, cells: map[int]Val{}}
+	st := &State{pcSet: map[string]bool{}, heap: map[string]Term{}, cells: map[int]Val{}, knownTags: map[string]int{}}
 	st.W = ctx.declare("W@0", SInt)
 	st.assume(Ge(st.W, Zero))
 	if len(fn.FreeVars) > 0 {
